@@ -10,7 +10,9 @@ Writes `lean/Tranp/Generated/RunnerHeader.lean`:
 * `module_meta_factory` (providers/module.py): the lookup statements and the dictionary it returns;
 * `Py2Cpp.meta` (implements/cpp/transpiler/py2cpp.py): the dictionary; `Versions` (data/version.py): the two constants;
 * `Runner.can_transpile` / `_run_impl` / `try_load_meta_header` (bin/transpile.py): statements, verbatim; the arguments of the
-  `MetaHeader(...)` built for the comparison; `Config.force`.
+  `MetaHeader(...)` built for the comparison; `Config.force`;
+* `Writer` (file/writer.py): `__init__`, `put`, `flush`, `_flush` — the buffer replaces the file as a whole (one builtin
+  `open(..., mode='wb')`, anything else is a TranslateError).
 
 Derived table `comparedFields`: the leaf paths of the header JSON (`to_json` keys × TypedDict fields) — every one of them enters
 the identity the decision compares — and `currentInputs`: the source expression each of them is computed from for the module
@@ -34,6 +36,7 @@ PROVIDER_PY = 'rogw/tranp/providers/module.py'
 PY2CPP_PY = 'rogw/tranp/implements/cpp/transpiler/py2cpp.py'
 VERSION_PY = 'rogw/tranp/data/version.py'
 TRANSPILE_PY = 'rogw/tranp/bin/transpile.py'
+WRITER_PY = 'rogw/tranp/file/writer.py'
 
 
 class TranslateError(Exception):
@@ -86,6 +89,18 @@ def stmts(fn: ast.FunctionDef) -> list[str]:
 				need(not s.orelse, 'for/else is not understood')
 				out.append(f'for {ast.unparse(s.target)} in {ast.unparse(s.iter)}:')
 				walk(s.body)
+				out.append('end')
+			elif isinstance(s, ast.With):
+				out.append('with ' + ', '.join(ast.unparse(i) for i in s.items) + ':')
+				walk(s.body)
+				out.append('end')
+			elif isinstance(s, ast.Try):
+				need(not s.orelse and not s.finalbody, 'try/else/finally is not understood')
+				out.append('try:')
+				walk(s.body)
+				for h in s.handlers:
+					out.append(f"except {ast.unparse(h.type) if h.type else ''}:")
+					walk(h.body)
 				out.append('end')
 			elif isinstance(s, ast.FunctionDef):
 				out.append(f'def {s.name}({ast.unparse(s.args)}):')
@@ -258,6 +273,13 @@ def generate() -> list[dict[str, Any]]:
 	force = [ast.unparse(s) for s in ast.walk(find_func(config, '__init__')) if isinstance(s, ast.Assign) and ast.unparse(s.targets[0]) == 'self.force']
 	need(len(force) == 1, 'Config.__init__: expected one `self.force = …`')
 	hs = find_func(header, 'to_header_str')
+	writer = find_class(parse_file(WRITER_PY), 'Writer')
+	flush_impl = find_func(writer, '_flush')
+	# the file is replaced as a whole: exactly one open(), in a truncating write mode, and one write of the whole buffer
+	opens = [c for c in ast.walk(flush_impl) if isinstance(c, ast.Call) and ast.unparse(c.func) in ('open', 'os.open', 'os.fdopen', 'io.open')]
+	need(len(opens) == 1 and ast.unparse(opens[0].func) == 'open', f'Writer._flush: expected exactly one builtin open(), found {[ast.unparse(c.func) for c in opens]}')
+	mode = [ast.unparse(k.value) for k in opens[0].keywords if k.arg == 'mode'] + [ast.unparse(a) for a in opens[0].args[1:2]]
+	need(mode == ["'wb'"], f"Writer._flush: expected open(..., mode='wb') (truncating), found {mode}")
 
 	parts = [
 		lean_one('tag', class_constant(header, 'Tag'), '`MetaHeader.Tag` (data/meta/header.py)'),
@@ -283,6 +305,10 @@ def generate() -> list[dict[str, Any]]:
 		lean_list('tryLoadMetaHeader', stmts(find_func(runner, 'try_load_meta_header')), '`Runner.try_load_meta_header`'),
 		lean_list('runImpl', stmts(find_func(runner, '_run_impl')), '`Runner._run_impl`'),
 		lean_one('configForce', force[0], '`Config.force`'),
+		lean_list('writerInit', stmts(find_func(writer, '__init__')), '`Writer.__init__` (file/writer.py)'),
+		lean_list('writerPut', stmts(find_func(writer, 'put')), '`Writer.put`'),
+		lean_list('writerFlush', stmts(find_func(writer, 'flush')), '`Writer.flush`'),
+		lean_list('writerFlushImpl', stmts(flush_impl), '`Writer._flush`: the whole buffer replaces the file (`wb` truncates)'),
 		'/-- the leaf paths of the header JSON: every one enters the identity that the decision compares -/\ndef comparedFields : List (List Str) := ['
 			+ ', '.join('[' + ', '.join(lean_str(x) for x in p) + ']' for p in compared) + ']\n',
 		lean_pairs('currentInputs', inputs, 'compared field (dotted), the expression its current value is computed from for the module under test'),
@@ -292,7 +318,7 @@ def generate() -> list[dict[str, Any]]:
 		'namespace Tranp.Generated.RunnerHeader\nopen Tranp\n\n' + '\n'.join(parts) + '\nend Tranp.Generated.RunnerHeader\n')
 	changed = write_if_changed(OUT, text)
 	return [{'file': os.path.relpath(OUT, os.path.dirname(GENERATED_DIR)), 'entries': len(parts), 'changed': changed,
-		'sources': [HEADER_PY, TYPES_PY, PROVIDER_PY, PY2CPP_PY, VERSION_PY, TRANSPILE_PY]}]
+		'sources': [HEADER_PY, TYPES_PY, PROVIDER_PY, PY2CPP_PY, VERSION_PY, TRANSPILE_PY, WRITER_PY]}]
 
 
 if __name__ == '__main__':
